@@ -103,6 +103,7 @@ class Helper:
         self.container = container
         self.name: str = node.name  # type: ignore[attr-defined]
         self.local = ".<locals>." in key
+        self.receiver: Optional[str] = None  # "self" / "super": only calls through that receiver (class-resolved hooks)
         decos = [ast.unparse(d) for d in node.decorator_list]  # type: ignore[attr-defined]
         self.static = decos == ["staticmethod"]
         self.plain = decos in ([], ["staticmethod"])
@@ -167,7 +168,10 @@ def _bind(h: Helper, call: ast.Call) -> Optional[Dict[str, ast.expr]]:
     if h.is_method:
         if not isinstance(call.func, ast.Attribute):
             return None
-        binding[params[0]] = call.func.value
+        recv = call.func.value
+        if isinstance(recv, ast.Call) and isinstance(recv.func, ast.Name) and recv.func.id == "super":
+            recv = ast.Name(id="self", ctx=ast.Load())
+        binding[params[0]] = recv
         pos_params = params[1:npos]
     else:
         pos_params = params[:npos]
@@ -275,8 +279,115 @@ class Inliner:
                     continue
         return False
 
+    # ------------------------------------------------------------ class hierarchies
+    def _classes(self) -> Dict[str, Tuple[str, ast.ClassDef]]:
+        out: Dict[str, Tuple[str, ast.ClassDef]] = {}
+        for mod, tree in self.trees.items():
+            for n in tree.body:
+                if isinstance(n, ast.ClassDef):
+                    out.setdefault(n.name, (mod, n))
+        return out
+
+    def _mro(self, classes: Dict[str, Tuple[str, ast.ClassDef]], c: ast.ClassDef) -> List[Tuple[str, ast.ClassDef]]:
+        """Single-inheritance chain inside the package (enough for template-method hierarchies)."""
+        out: List[Tuple[str, ast.ClassDef]] = []
+        cur: Optional[ast.ClassDef] = c
+        seen = set()
+        while cur is not None and cur.name not in seen:
+            seen.add(cur.name)
+            out.append((classes[cur.name][0], cur))
+            nxt = None
+            for b in cur.bases:
+                bn = b.id if isinstance(b, ast.Name) else (b.attr if isinstance(b, ast.Attribute) else None)
+                if bn in classes and bn not in seen:
+                    nxt = classes[bn][1]
+                    break
+            cur = nxt
+        return out
+
+    @staticmethod
+    def _methods(c: ast.ClassDef) -> Dict[str, ast.AST]:
+        return {m.name: m for m in c.body if isinstance(m, FuncNode)}
+
+    def devirtualise(self) -> int:
+        """Template methods: a known method that a subclass now inherits from a base whose version calls
+        hook methods the rules have never seen is copied into the subclass, and every `self.hook(...)` /
+        `super().hook(...)` of a never-seen hook is replaced by the body that the class's own hierarchy
+        selects.  The subclass then reads as it did before the hooks were introduced."""
+        classes = self._classes()
+        n = 0
+        new_hooks: Dict[str, List[Tuple[str, ast.ClassDef, ast.AST]]] = {}
+        for cname, (mod, c) in classes.items():
+            for mname, m in self._methods(c).items():
+                if f"{mod}.{cname}.{mname}" not in self.known and not (mname.startswith("__") and mname.endswith("__")):
+                    new_hooks.setdefault(mname, []).append((mod, c, m))
+        hook_names = {k for k, v in new_hooks.items() if len(v) >= 2 or any(
+            isinstance(x, ast.Call) and isinstance(x.func, ast.Attribute) and x.func.attr == k and isinstance(x.func.value, ast.Call)
+            for _m, _c, f in v for x in ast.walk(f))}
+        if not hook_names:
+            return 0
+        # 1. copy inherited known methods that use hooks into the subclasses that used to define them
+        for key in sorted(self.known):
+            parts = key.split(".")
+            if "<locals>" in key or len(parts) < 3:
+                continue
+            mod, cname, mname = ".".join(parts[:-2]), parts[-2], parts[-1]
+            if cname not in classes or classes[cname][0] != mod:
+                continue
+            c = classes[cname][1]
+            if mname in self._methods(c):
+                continue
+            for _bm, b in self._mro(classes, c)[1:]:
+                bm = self._methods(b).get(mname)
+                if bm is None:
+                    continue
+                uses = any(
+                    isinstance(x, ast.Call) and isinstance(x.func, ast.Attribute) and x.func.attr in hook_names
+                    and isinstance(x.func.value, ast.Name) and x.func.value.id == "self" for x in ast.walk(bm))
+                if uses:
+                    c.body.append(copy.deepcopy(bm))
+                    self.log.append(f"{key}: inherited template method copied into the subclass")
+                    n += 1
+                break
+        # 2. resolve and inline hook calls class by class
+        for _round in range(4):
+            did = 0
+            for cname, (mod, c) in classes.items():
+                chain = self._mro(classes, c)
+                for mname, m in list(self._methods(c).items()):
+                    for kind, start in (("self", 0), ("super", 1)):
+                        for hook in sorted(hook_names):
+                            target = None
+                            for bmod, b in chain[start:]:
+                                t = self._methods(b).get(hook)
+                                if t is not None:
+                                    target = (bmod, b, t)
+                                    break
+                            if target is None or target[2] is m:
+                                continue
+                            h = Helper(f"{target[0]}.{target[1].name}.{hook}", target[1], target[2], target[1].body)
+                            if not h.plain or not h.simple_sig or h.is_gen or h.has_nested or not h.returns_ok():
+                                continue
+                            h.receiver = kind
+                            for _ in range(20):
+                                if self._inline_one(m, h) is None:
+                                    break
+                                did += 1
+            n += did
+            if not did:
+                break
+        # 3. hooks nobody calls any more disappear
+        for hook in sorted(hook_names):
+            still = any(isinstance(x, ast.Attribute) and x.attr == hook for tree in self.trees.values() for x in ast.walk(tree))
+            if not still:
+                for _mod, c, f in new_hooks[hook]:
+                    if f in c.body:
+                        c.body.remove(f)
+                self.log.append(f"hook `{hook}`: resolved per class and removed")
+        return n
+
     def run(self) -> int:
-        total = 0
+        total = self.devirtualise()
         for _round in range(4):
             n = 0
             for h in self.candidates():
@@ -305,7 +416,14 @@ class Inliner:
         if isinstance(n.func, ast.Name):
             return n.func.id == h.name and not h.is_method
         if isinstance(n.func, ast.Attribute):
-            return n.func.attr == h.name
+            if n.func.attr != h.name:
+                return False
+            if h.receiver == "self":
+                return isinstance(n.func.value, ast.Name) and n.func.value.id == "self"
+            if h.receiver == "super":
+                v = n.func.value
+                return isinstance(v, ast.Call) and isinstance(v.func, ast.Name) and v.func.id == "super" and not v.args
+            return True
         return False
 
     def _inline_everywhere(self, h: Helper) -> Tuple[int, int]:
